@@ -136,7 +136,15 @@ def goal_of(it, v):
             del it.pc[n_pc:]
         return list(extra) + sub_pre, g
     if isinstance(v, ExistsV):
-        raise Unsupported("existential goal")
+        # an existential goal is proved by one of the index terms known on the path (e.g. the witness of a failed `all`)
+        alts = []
+        for t in list(it.index_terms):
+            b = v.body(t)
+            b = it.truth(b) if not isinstance(b, (bool,)) else b
+            if isinstance(b, (ForallV, ExistsV)):
+                raise Unsupported("nested quantifier under an existential goal")
+            alts.append(conj(z3.And(0 <= t, t < to_z3num(v.n)), b))
+        return [], core.to_bool(disj(*alts)) if alts else z3.BoolVal(False)
     if is_z3(v):
         return [], v
     raise Unsupported("cannot prove spec value %r" % (v,))
@@ -457,6 +465,9 @@ def frame_obligations(it, modifies, old_heap, old_env, pid):
             i = fresh("fi", z3.IntSort())
             allowed = mod.allowed("a1", field, r, (i,))
             goal = z3.Implies(z3.Not(core.to_bool(allowed)) if not isinstance(allowed, bool) else z3.BoolVal(not allowed), new_heap.read_a1(field, r, i) == old_heap.read_a1(field, r, i))
+        elif kind == "a2shape":
+            allowed = mod.allowed("a2", field, r, ())
+            goal = z3.Implies(z3.Not(core.to_bool(allowed)) if not isinstance(allowed, bool) else z3.BoolVal(not allowed), z3.And(new_heap.rows_a2(field, r) == old_heap.rows_a2(field, r), new_heap.cols_a2(field, r) == old_heap.cols_a2(field, r)))
         elif kind == "a1len":
             allowed = mod.allowed("a1", field, r, ())
             goal = z3.Implies(z3.Not(core.to_bool(allowed)) if not isinstance(allowed, bool) else z3.BoolVal(not allowed), new_heap.len_a1(field, r) == old_heap.len_a1(field, r))
